@@ -75,6 +75,10 @@ func Run(c *vh.Ctx) {
 			var sc ScopeCase
 			json.Unmarshal(c.ReplayRaw, &sc)
 			runScope(c, sc.Tag, sc.Name)
+		case "pos":
+			var pc PosCase
+			json.Unmarshal(c.ReplayRaw, &pc)
+			runPos(c, m, pc.Tag, &pc)
 		case "hist":
 			var h HistCase
 			json.Unmarshal(c.ReplayRaw, &h)
@@ -89,6 +93,13 @@ func Run(c *vh.Ctx) {
 				histInst(c, m, h.Tag, h.Stride, h.Off, h.Group)
 			}
 		}
+		if m != nil {
+			c.Res.ModelLines = m.Lines
+		}
+		return
+	}
+	if os.Getenv("C07_ONLY") == "pos" { // debugging aid: the position stream alone
+		runPos(c, m, "P"+string(rune('a'+c.Rand.Intn(26))), nil)
 		if m != nil {
 			c.Res.ModelLines = m.Lines
 		}
@@ -112,6 +123,8 @@ func Run(c *vh.Ctx) {
 	histTypes(c, m, "H"+string(rune('a'+c.Rand.Intn(26))), "")
 	stride := c.N(8, 1)
 	histInst(c, m, "V"+string(rune('a'+c.Rand.Intn(26))), stride, c.Rand.Intn(stride), "")
+	// enforcement does not depend on the position of the offending item among several (parameters, slots, accesses)
+	runPos(c, m, "P"+string(rune('a'+c.Rand.Intn(26))), nil)
 	c.Res.Exhaustive = true
 	c.Res.ExhaustiveWhat = "per hierarchy shape: every (access path variant x modifier x receiver x object class x site) cell of the visibility matrix; every (boundary x declared type x value kind) cell of the type matrix (10 x 15 x 11); every (base x interface x middle-class subset x own subset) instantiation cell (4 x 3 x 5 x 16) plus the abstract/interface/static special cases; hierarchy shapes and names are seeded"
 	if m != nil {
